@@ -61,6 +61,22 @@ def run_scss(src, profile="dev", compressed=False):
     return {"outcome": "crash", "message": f"exit {p.returncode}: {p.stderr[-300:]}"}
 
 
+def run_api(entry, style, precision, arg, profile="dev"):
+    """One library entry point (value | scss | path | transform) with an explicit output format."""
+    exe = build(profile)
+    try:
+        p = subprocess.run([exe, "--api", entry, style, str(precision), arg], capture_output=True, text=True, timeout=120)
+    except subprocess.TimeoutExpired:
+        return {"outcome": "crash", "message": "timeout"}
+    for line in p.stdout.split("\n"):
+        if line.strip().startswith("{"):
+            try:
+                return json.loads(line)
+            except ValueError:
+                pass
+    return {"outcome": "crash", "message": f"exit {p.returncode}: {p.stderr[-300:]}"}
+
+
 def replay_both(harness, values, features=()):
     dev = run(harness, values, "dev", features)
     rel = run(harness, values, "release", features)
